@@ -147,4 +147,20 @@ PROPS = {
              "completed random history; distinct = distinct keys / histories",
         assumptions=COMMON + ["the BFS is complete only up to its key budget per first operation and history length 6"],
     ),
+    "C01": dict(
+        rule="a case is one call sequence into the public API under the panic monitor (panic hook + catch_unwind; a dying "
+             "worker is re-run case by case by the driver): 20 maximal-nesting patterns at 4096 characters, the builtin "
+             "matrix and random builtin arguments, the operator matrix and random operands, every token sequence up to "
+             "the length bound through precompilation + 24 tree-level entry points + all iterators + Display/Debug/"
+             "Clone/PartialEq (with the H1 parser-precondition monitor), hostile strings through all 48 entry points, "
+             "contexts built through new / set_value / clone / clear / context_map! / math_consts_context!; every "
+             "workload runs in the release profile and in the unoptimised dev profile (overflow checks and debug "
+             "assertions on); non-trivial = every case (the only oracle is 'returned'); distinct = distinct inputs",
+        assumptions=COMMON + ["worker threads run with an 8 MiB stack (the Linux main-thread default); the README bounds input length "
+                              "because parsing and evaluation recurse",
+                              "allocation failure is outside the property (README)",
+                              "user functions in the contexts do not panic themselves"],
+        profiles=["release", "dev"],
+        profile_scale={"dev": 0.1},
+    ),
 }
